@@ -22,7 +22,11 @@ type BytesV struct {
 }
 type SymStr struct{ T string } // symbolic string id
 type TimeV struct{ T string }  // unix seconds term
-type CtxV struct{ ID int }
+type CtxV struct {
+	ID     int
+	Time   string // block time override (WithBlockTime)
+	Height string
+}
 type WriteCacheV struct{ Child, Parent int }
 type StoreV struct {
 	Name   string
